@@ -197,6 +197,11 @@ def native(tier, seed):
 SINKMOD = "osyris.io.sink"
 
 
+# the same reader object asked twice for the same file (as Loader does on a second load of one dataset)
+_SINK_TWICE = {"label": "ndim=3,code_units,many,same_reader_twice", "mode": "table", "ndim": 3, "legacy": False, "rows": "many",
+               "twice": True}
+
+
 def _sink_cases():
     out = [{"label": "select_false", "mode": "off"}, {"label": "missing_file", "mode": "missing"}, {"label": "empty_file", "mode": "empty"}]
     for ndim in (1, 2, 3):
@@ -209,6 +214,7 @@ def _sink_cases():
                 "warmup": True})
     out.append({"label": "ndim=2,legacy,one,after_other_dataset", "mode": "table", "ndim": 2, "legacy": True, "rows": "one",
                 "warmup": True})
+    out.append(_SINK_TWICE)
     return out
 
 
@@ -277,7 +283,9 @@ def sink_initialize(case):
         return table
 
     real_os = S.os
-    S.os = types.SimpleNamespace(path=types.SimpleNamespace(exists=exists, getsize=getsize, join=os.path.join))
+    S.os = types.SimpleNamespace(path=types.SimpleNamespace(exists=exists, getsize=getsize, join=os.path.join,
+                                                            getmtime=lambda p: 1234.5, getctime=lambda p: 1234.5),
+                                 stat=lambda p: os.stat_result((0o100644, 1, 1, 1, 0, 0, 1000, 1234, 1234, 1234)))
     smisc.FILES["open"], smisc.FILES["loadtxt"] = open_, loadtxt
     try:
         if case.get("warmup"):
@@ -294,6 +302,11 @@ def sink_initialize(case):
                 del v[:]
         r = S.SinkReader()
         meta = {"nout": 7, "path": "", "ndim": ndim}
+        first = None
+        if case.get("twice"):
+            first = r.initialize(dict(meta), units, True)
+            for v in log.values():
+                del v[:]
         out = r.initialize(meta, units, False if mode == "off" else True)
     finally:
         S.os = real_os
@@ -310,10 +323,18 @@ def sink_initialize(case):
         return
     # assumed contract of np.loadtxt: called on the CSV with ',' and the two header lines skipped, it returns the numbers of the
     # data lines (row i, field j) -- squeezed to 1-D for a single data line
-    prove("loadtxt.call", len(log["loadtxt"]) == 1 and log["loadtxt"][0][0] == want_name and log["loadtxt"][0][1] is float
-          and log["loadtxt"][0][2] == "," and log["loadtxt"][0][3] == 2)
-    prove("header.read_from_same_file", [p for p, _ in log["open"]] == [want_name])
+    if first is None:  # (a second request for an unchanged file may legitimately be answered without reading it again)
+        prove("loadtxt.call", len(log["loadtxt"]) == 1 and log["loadtxt"][0][0] == want_name and log["loadtxt"][0][1] is float
+              and log["loadtxt"][0][2] == "," and log["loadtxt"][0][3] == 2)
+        prove("header.read_from_same_file", [p for p, _ in log["open"]] == [want_name])
     prove("is_group", isinstance(out, osy.Datagroup))
+    if first is not None:
+        # what the caller did to the earlier result (sorting it in place, say) must not be visible in this one
+        prove("repeat.fresh_group", out is not first)
+        prove("repeat.fresh_members", all(out[key] is not first[key] for key in out.keys() if key in first.keys()))
+        prove("repeat.no_shared_buffers", not any(
+            snp.shares_memory(a._array, b._array) for key in out.keys() if key in first.keys()
+            for a, b in zip(_leaves(out[key]), _leaves(first[key]))))
     comps = "xyz"[:ndim]
     expect_keys = ["id", "msink"] + (["position", "v"] if ndim > 1 else ["x", "vx"]) + ["age", "lx"]
     prove("keys", sorted(out.keys()) == sorted(expect_keys))
@@ -337,6 +358,13 @@ def sink_initialize(case):
         prove("column[%s].unit" % key, arr.unit == osy.units(uexpr))
 
 
+def _leaves(x):
+    """component Arrays of a Vector, or the Array itself"""
+    if hasattr(x, "nvec"):
+        return [getattr(x, c) for c in "xyz"[: x.nvec]]
+    return [x]
+
+
 def _sink_factor(key, legacy, m, l, t):
     """value/raw relation per column (division-free)"""
     if legacy or key == "id":
@@ -352,3 +380,8 @@ def _sink_factor(key, legacy, m, l, t):
     if key == "lx":
         return lambda v, raw: v * t == raw * m * l * l
     raise KeyError(key)
+
+
+# the repeat case also belongs to C15 (a second load on one dataset asks the same reader again)
+unit("C15", "SinkReader.initialize", targets=[SINKMOD + ":SinkReader.initialize"], cases=[_SINK_TWICE],
+     replay=NIO.replay_history)(sink_initialize)
